@@ -102,7 +102,11 @@ fn main() {
             let data = a.replace("\\n", "\n").replace("\\r", "\r").replace("\\t", "\t");
             let mut d = Driver::new();
             d.fs.put("f.csv", data.as_bytes().to_vec());
-            println!("{:?}\n  => {}", data, d.q("SELECT * FROM read_csv('f.csv')").brief());
+            if let Ok(c) = std::env::var("VERIF_CHUNK") {
+                d.fs.set_max_chunk(c.parse().ok());
+            }
+            let q = std::env::var("VERIF_CSV_SQL").unwrap_or_else(|_| "SELECT * FROM read_csv('f.csv')".into());
+            println!("{:?}\n  => {}", data, d.q(&q).brief());
         }
         return;
     }
